@@ -3,7 +3,7 @@ import re
 
 import z3
 
-from .. import core, gen_graph as gg, gen_mol as gm, pipeline as pl, symx
+from .. import core, gen_graph as gg, gen_mol as gm, loader, pipeline as pl, symx
 from ..symx import SymReal, band, bor
 from .c02 import strip_desc
 from .c12 import deep_eq
@@ -21,7 +21,7 @@ def spec_mass(text):
         # CGsmiles completes the valence of every atom, bracket atoms included (C09): the hydrogen count written in
         # a bracket atom is not taken literally - except on an aromatic atom ([nH]), where the written hydrogen decides
         # which Kekule form exists and valence arithmetic alone cannot know it
-        nh = a['hcount'] if (a.get('aromatic') and a.get('bracket') and a.get('hcount')) else h[0]
+        nh = a['hcount'] if (a.get('aromatic') and a.get('bracket') and a.get('hcount')) else (h[0] if h is not None else 0)
         m += nh * pysmiles.PTE['H']['AtomicMass']
     return m
 
@@ -107,19 +107,33 @@ class C17(SamplerProp):
         names = [d.lstrip('#').split('=', 1)[0] for d in cfg['frags'][1:-1].split(',#')]
         text = '{' + ','.join('#%s=[$]CCCCCC[$]' % n for n in names) + '}'
         core.guard(M.sample.MoleculeSampler.from_fragment_string, text, polymer_reactivities={'$': 1.0}, all_atom=True, seed=3)
+        # ... and one that lists the same fragments in the opposite order and grows by one fragment (its draws are pinned,
+        # not explored): whatever it leaves behind in the process must not change what the sampler under test returns
+        rev = '{' + ','.join('#' + d.lstrip('#') for d in reversed(cfg['frags'][1:-1].split(',#'))) + '}'
+        type(STREAM).pinned = ('decoy',)
+
+        def grow():
+            s = M.sample.MoleculeSampler.from_fragment_string(rev, all_atom=True, seed='decoy', **cfg['kw'])
+            s.sample(1)
+        core.guard(grow)
 
     def execute(self, M, shape, inp):
-        self._decoy(M, shape)
+        # two histories: (1) construct-and-sample in a fresh process; (2) in another fresh process (module state reset),
+        # unrelated samplers first (decoys), then the same construct-and-sample.  The detailed clauses are judged on the run *after* the history (first in the
+        # returned pair), the run before it is the reference for "the same molecule every time".
         if getattr(M, 'is_shadow', False):
             self._mode.clear()
             self._run_index[0] = 0
             r1 = core.guard(self._run_once, M, shape, inp, 7, True)
+            loader.reset_state(M)        # the second history starts in a fresh process
+            self._decoy(M, shape)
             self._run_index[0] = 1
             r2 = core.guard(self._run_once, M, shape, inp, 7, True)
             self._run_index[0] = 0
             inp['draws'] = dict(STREAM.draws)
-            return [r1, r2]
-        return self._real_run(M, shape, inp, seeds=(7, 7))
+            return [r2, r1]
+        r1, r2 = self._real_run(M, shape, inp, seeds=(7, 7), between=lambda: (loader.reset_state(M), self._decoy(M, shape)))
+        return [r2, r1]
 
     def oracle(self, shape, inp, obs):
         r1, r2 = obs
